@@ -883,17 +883,38 @@ func expandExpr(info *types.Info, fn *FuncInfo, e ast.Expr, depth int) string {
 	}
 	defs := map[types.Object][]ast.Expr{}
 	ast.Inspect(fn.Body(), func(n ast.Node) bool {
-		if as, ok := n.(*ast.AssignStmt); ok {
+		switch as := n.(type) {
+		case *ast.AssignStmt:
 			for i, l := range as.Lhs {
 				o := objOf(info, l)
 				if o == nil {
 					continue
 				}
+				var rhs ast.Expr
 				if len(as.Lhs) == len(as.Rhs) {
-					defs[o] = append(defs[o], as.Rhs[i])
+					rhs = as.Rhs[i]
 				} else if len(as.Rhs) == 1 {
-					defs[o] = append(defs[o], as.Rhs[0])
+					rhs = as.Rhs[0]
 				}
+				selfRef := false
+				if rhs != nil {
+					ast.Inspect(rhs, func(m ast.Node) bool {
+						if id, ok := m.(*ast.Ident); ok && info.Uses[id] == o {
+							selfRef = true
+						}
+						return true
+					})
+				}
+				if as.Tok != token.DEFINE && as.Tok != token.ASSIGN || selfRef || rhs == nil {
+					// compound assignment / accumulation: the variable is not a plain alias of one expression
+					defs[o] = append(defs[o], nil, nil)
+					continue
+				}
+				defs[o] = append(defs[o], rhs)
+			}
+		case *ast.IncDecStmt:
+			if o := objOf(info, as.X); o != nil {
+				defs[o] = append(defs[o], nil, nil)
 			}
 		}
 		return true
